@@ -22,7 +22,7 @@ func gen(t *rapid.T) sim.Case {
 	if rep.Thorough() {
 		max = w + 6
 	}
-	c := sim.Gen(t, sim.GenOpts{MaxSteps: max, MinWidth: w, Retries: true, Preconds: true})
+	c := sim.Gen(t, sim.GenOpts{MaxSteps: max, MinWidth: w, Retries: true, Preconds: true, Redirects: true})
 	// the first w steps (names a..) are independent roots; k from 0..w+1
 	c.MaxActive = rapid.IntRange(0, w+1).Draw(t, "k")
 	if c.MaxActive == 0 {
